@@ -267,6 +267,21 @@ func (cfg *ChainCfg) chains1(v ssa.Value, depth int, busy map[ssa.Value]bool, bi
 						return cfg.chains(fwd[0], depth, busy, bind)
 					}
 				}
+				// a field of an object a constructor helper has just returned: what the helper stored into it
+				if vals, call, ok := ForwardLoadCtor(x); ok {
+					callee := call.Call.StaticCallee()
+					b := binding{}
+					for i, p := range callee.Params {
+						if i < len(call.Call.Args) {
+							b[p] = cfg.chains(call.Call.Args[i], depth, busy, bind)
+						}
+					}
+					var out []Chain
+					for _, val := range vals {
+						out = append(out, cfg.chains(val, depth, busy, b)...)
+					}
+					return dedupChains(out)
+				}
 				// a struct value handed over by a helper (spilled into a local): what its literal's field was given
 				if _, isLocal := fa.X.(*ssa.Alloc); isLocal {
 					if srcs := cfg.P.DeepSources(x, 3, true); len(srcs) > 0 && !(len(srcs) == 1 && srcs[0] == ssa.Value(x)) {
